@@ -72,3 +72,172 @@ def run(fx, rep, tier):
     rep.assume("num::BigRational's trunc/floor/ceil/round/denom behave as documented (transfer functions are written "
                "from num-rational's documentation, not from this repository)")
     r1_classes(fx, rep, tier)
+
+
+# ---- R2..R6: path summaries of the builtin functions -------------------------------------------------------
+from ..absint import term as TM  # noqa: E402
+from ..absint.term import Sym, T, K, VecV, TermDomain  # noqa: E402
+from ..absint.core import Const  # noqa: E402
+
+
+def numeric(i):
+    return Agg("adt", "numeric::Numeric", 0, "Numeric",
+               (Agg("adt", "rational::Rational", 0, "Rational", (Sym("x%d" % i),)), Sym("u%d" % i)))
+
+
+def unpack_result(v):
+    """-> ('ok', value term, unit) | ('err', kind name, fields) | ('?', v)"""
+    if isinstance(v, Agg) and v.path == "std::result::Result":
+        p = v.field(0)
+        if v.vi == 0 and isinstance(p, Agg) and p.path == "numeric::Numeric":
+            val = p.field(0)
+            if isinstance(val, Agg) and val.path == "rational::Rational":
+                val = val.field(0)
+            return ("ok", val, p.field(1))
+        if v.vi == 1 and isinstance(p, Agg) and p.path == "error::Error":
+            k = p.field(1)
+            if isinstance(k, Agg):
+                return ("err", k.vname, k.fields, p.field(0))
+            return ("err", "?", (), p.field(0))
+    return ("?", v)
+
+
+def summarize(facts, path, nargs, oracle=None):
+    dom = TermDomain(oracle=oracle)
+    it = core.Interp(facts, dom)
+    body = facts.fn(path)
+    outs = it.run(body, [Sym("span"), VecV([numeric(i) for i in range(nargs)])], {})
+    return dom, it, body, outs
+
+
+def value_ok(dom, store, fn, got, n_term=None):
+    """Is `got` the specified value of fn(x0[, n]) on this path?  Accepted idioms are enumerated here."""
+    x = Sym("x0")
+    if fn in ("floor", "ceil"):
+        if got == T(fn, x):
+            return True
+        return got == x and dom.entails(store, T("is_integer", x))
+    if fn == "round" and n_term is None:
+        if got == T("round", x):
+            return True
+        return got == x and dom.entails(store, T("is_integer", x))
+    if fn == "round":
+        n = n_term
+        # round(x, n) = round(x * 10^n) / 10^n
+        p10 = T("pow", K(10), n)
+        if got in (T("/", T("round", T("*", x, p10)), p10), T("/", T("round", T("*", p10, x)), p10)):
+            return True
+        # equivalently scale by 10^-n the other way round
+        m10 = T("pow", K(10), T("Neg", n))
+        if got in (T("*", T("round", T("/", x, m10)), m10),):
+            return True
+        # lemma: an integer is a multiple of 10^-n for n >= 0
+        if got == x and dom.entails(store, T("is_integer", x)) and dom.entails(store, T("Ge", n, Const(0))):
+            return True
+        # lemma: 10^0 = 1
+        if got == T("round", x) and dom.entails(store, T("Eq", n, Const(0))):
+            return True
+        return False
+    return False
+
+
+def r2_builtins(fx, rep, tier):
+    rep.rule("C10-R2", "path summary (symbolic terms + path conditions) of builtin::{floor,ceil,round} for 0..3 "
+                       "arguments: on every explored path with the right number of arguments the result value is the "
+                       "specified term (floor(x0), ceil(x0), round(x0), round(x0*10^n)/10^n, or an enumerated lemma "
+                       "instance), nothing else")
+    rep.rule("C10-R4", "the unit of every Ok result is the first argument's unit")
+    rep.rule("C10-R5", "a wrong number of arguments reaches only Err(ArgumentMismatch); the right number never does")
+    rep.rule("C10-R6", "no explored path of a rounding builtin ends in a panic (debug assertions included): every "
+                       "debug_assert!(value.denom().is_one()) is discharged by the integrality facts on its path")
+    arities = {"floor": (1,), "ceil": (1,), "round": (1, 2)}
+    maxn = 4 if tier == "thorough" else 3
+    for cfg, facts in fx.items():
+        tag = "" if cfg == "dev" else "[rel]"
+        for fn, good in arities.items():
+            path = "eval::builtin::" + fn
+            if facts.fn(path) is None:
+                rep.ob("C10-R2", "anchor:%s%s" % (path, tag), False, "anchor function %s not found" % path)
+                continue
+            rep.count("builtin functions")
+            for k in range(0, maxn + 1):
+                try:
+                    dom, it, body, outs = summarize(facts, path, k)
+                except core.Undecided as e:
+                    rep.ob("C10-R2", "%s/%d%s" % (fn, k, tag), False, "undecided: %s" % e)
+                    continue
+                rep.count("paths", len(outs))
+                n_ok = n_err = 0
+                for o in outs:
+                    pc = dom.pc(o.store)
+                    pcs = "; ".join("%r=%s" % (p, b) for p, b in pc) or "true"
+                    if o.kind != "ret":
+                        rep.ob("C10-R6", "%s/%d:panic:%s%s" % (fn, k, _pc_key(pc), tag), False,
+                               "builtin %s with %d argument(s) can panic (%s) on the path where %s" % (fn, k, o.value, pcs),
+                               o.site, excerpt={"pc": pcs})
+                        continue
+                    u = unpack_result(o.value)
+                    if u[0] == "ok":
+                        n_ok += 1
+                        _, val, unit = u
+                        rep.ob("C10-R5", "%s/%d:ok:%s%s" % (fn, k, _pc_key(pc), tag), k in good,
+                               "builtin %s returns Ok with %d argument(s)" % (fn, k), o.site)
+                        if k not in good:
+                            continue
+                        nterm = None
+                        if k == 2:
+                            nterm = T("to_i32", Sym("x1"))
+                        okv = value_ok(dom, o.store, fn, val, nterm)
+                        rep.ob("C10-R2", "%s/%d:value:%s%s" % (fn, k, _pc_key(pc), tag), okv,
+                               "builtin %s(%s) returns %r on the path where %s" % (
+                                   fn, ", ".join("x%d" % i for i in range(k)), val, pcs), o.site,
+                               sample={"fn": fn, "args": k, "path_condition": pcs, "value": repr(val)})
+                        rep.ob("C10-R4", "%s/%d:unit:%s%s" % (fn, k, _pc_key(pc), tag), unit == Sym("u0"),
+                               "unit of the result is %r, expected the first argument's unit u0" % (unit,), o.site)
+                    elif u[0] == "err":
+                        n_err += 1
+                        kind = u[1]
+                        if k in good:
+                            # only a conversion failure of the digits argument may be an error
+                            okk = (kind == "BadArgument" and k == 2 and
+                                   dom.decide(o.store, T("fits_i32", Sym("x1"))) is False)
+                            rep.ob("C10-R5", "%s/%d:err:%s:%s%s" % (fn, k, kind, _pc_key(pc), tag), okk,
+                                   "builtin %s with %d argument(s) returns Err(%s) on the path where %s" % (fn, k, kind, pcs),
+                                   o.site)
+                        else:
+                            rep.ob("C10-R5", "%s/%d:err:%s%s" % (fn, k, kind, tag), kind == "ArgumentMismatch",
+                                   "builtin %s with %d argument(s) returns Err(%s)" % (fn, k, kind), o.site)
+                    else:
+                        rep.ob("C10-R2", "%s/%d:shape%s" % (fn, k, tag), False,
+                               "unrecognised result shape %r" % (o.value,), o.site)
+                if k in good:
+                    rep.ob("C10-R5", "%s/%d:some-ok%s" % (fn, k, tag), n_ok > 0,
+                           "builtin %s with %d argument(s) has %d Ok path(s)" % (fn, k, n_ok), body.site())
+                else:
+                    rep.ob("C10-R5", "%s/%d:all-err%s" % (fn, k, tag), n_ok == 0 and n_err > 0,
+                           "builtin %s with %d argument(s): %d Ok, %d Err path(s)" % (fn, k, n_ok, n_err), body.site())
+    rep.floor("C10-R2", "builtin rounding functions", rep.analysed.get("builtin functions", 0), 3)
+
+
+def _pc_key(pc):
+    return "&".join("%s%r" % ("" if b else "!", p) for p, b in pc) or "true"
+
+
+def r7_dispatch(fx, rep, tier):
+    rep.rule("C10-R7", "the name table eval::builtin() maps \"floor\", \"ceil\", \"round\" to the functions of the same name")
+    facts = fx["dev"]
+    from .. import tables
+    tbl = tables.builtin_table(facts)
+    for nm in ("floor", "ceil", "round"):
+        got = tbl.get(nm)
+        rep.ob("C10-R7", "name:" + nm, got == "eval::builtin::" + nm,
+               "builtin(\"%s\") resolves to %s" % (nm, got), facts.fn("eval::builtin").site() if facts.fn("eval::builtin") else "")
+
+
+_run1 = run
+
+
+def run(fx, rep, tier):  # noqa: F811
+    _run1(fx, rep, tier)
+    r2_builtins(fx, rep, tier)
+    r7_dispatch(fx, rep, tier)
